@@ -64,7 +64,11 @@ def payload_for(n, mode):
         return bytes(R.RESERVED[(i + n) % 6] for i in range(n))
     if mode == 2:
         return bytes([0xFF] * n)
-    return bytes(R._RND[i] for i in range(n))  # randomised form becomes all-zero
+    if mode == 3:
+        return bytes(R._RND[i] for i in range(n))  # randomised form becomes all-zero
+    if mode == 4:
+        return bytes(R._RND[i] ^ R.RESERVED[(i + n) % 6] for i in range(n))  # randomised form is all reserved bytes: every byte is stuffed on the wire (twice the length)
+    return bytes(R._RND[i] ^ (0x7D if i % 2 else 0x7E) for i in range(n))  # randomised form alternates FLAG / ESCAPE
 
 
 def run_tx(params, tape, detail=False):
@@ -94,7 +98,7 @@ def run_tx(params, tape, detail=False):
 
     async def main():
         for n in params["lens"]:
-            for mode in range(4):
+            for mode in range(6):
                 p = bytes([n & 0xFF, mode]) + payload_for(n, mode) if n >= 2 else payload_for(n, mode)
                 p = p[:n] if n < 2 else p[:max(n, 2)]
                 if n >= 2:
@@ -186,7 +190,7 @@ def run_rx_payload(params, tape):
     sigs = set()
     n = 0
     for ln in params["lens"]:
-        for mode in range(4):
+        for mode in range(6):
             p = payload_for(ln, mode)
             if not p:
                 continue  # empty data field: don't-care
